@@ -157,7 +157,7 @@ def seed_runs(cases, K):
             env["DELTA_VERIF_PARENT_ARGS"] = "verif-none"
             p = subprocess.run([build.BIN] + args, input=data, env=env, stdout=subprocess.PIPE,
                                stderr=subprocess.PIPE, timeout=30)
-            seen.add((p.returncode, p.stdout))
+            seen.add((p.returncode, p.stdout, p.stderr))
         out.append(seen)
     return out
 
@@ -238,6 +238,14 @@ def main(tier):
         data = sec_bytes("modified", "minusplus", 0, "git") + sec_bytes("rename_change", "ctx", 1, "git") \
             + sec_bytes("mode", "ctx", 2, "git")
         cases.append((r["args"], data))
+    # ... and of what delta reports instead of rendering: error messages and the --show-config listing
+    for extra in (["--plus-style", "minus-style", "--minus-style", "plus-style"],
+                  ["--plus-style", "minus-emph-style", "--minus-emph-style", "zero-style", "--zero-style", "plus-style"],
+                  ["--plus-style", "nosuchcolour"], ["--features", "nosuch"],
+                  ["--map-styles", "bold purple => red, bold cyan => blue, bold blue => green"],
+                  ["--show-config", "--map-styles", "bold purple => red, bold cyan => blue"],
+                  ["--show-config", "--side-by-side", "--navigate"]):
+        cases.append((["--no-gitconfig", "--paging=never"] + extra, data))
     seen = seed_runs(cases, KS)
     for (args, data), s in zip(cases, seen):
         if len(s) != 1:
